@@ -398,7 +398,7 @@ extern "C" void h_parts_direct(int ver, int nparts, int mode) {
 	if (mode == 1)
 		nif.RemoveEmptyPartitions(shape);
 	else {
-		FmRange f = fm_save(nif, true);
+		FmRange f = fm_save(nif, false); // default options, as an application would save
 		int rc = fm_load(re, f);
 		sym_assert(rc == 0, "C10-direct-reload: model does not reload after SetShapePartitions");
 		q = &re;
